@@ -19,17 +19,23 @@ import (
 )
 
 type c11Call struct {
-	Op   string // put putdiff get getbytes getfile
+	Op   string // put putat putagain putdiff get getbytes getfile
 	ID   int
 	Data []byte
-	R    int // putdiff: offset from which the second pass differs
+	R    int // putdiff: offset from which the second pass differs; putat: offset the source is at when Put gets it
 }
+
+// isPut: a Put from a well-behaved source: at its start (put), somewhere else (putat), or the very
+// reader the client's previous Put was given, left at its end (putagain).  All three must store
+// exactly Data: Put rewinds its source.
+func (c c11Call) isPut() bool { return c.Op == "put" || c.Op == "putat" || c.Op == "putagain" }
 
 type c11Scenario struct {
 	Pre      map[string][]byte
 	Clients  [][]c11Call
 	Schedule []int
 	Shared   bool     // the clients are goroutines sharing one *cache.Cache
+	Handles  []int    // else, when set: per client the index of the *cache.Cache it uses (equal indices share one)
 	MustHit  []string // "client:call" lookups that must find their content (direct oracle)
 	Restore  bool     // an id stored beforehand, re-stored with the same content while it is looked up
 }
@@ -55,6 +61,12 @@ func (sc *c11Scenario) String() string {
 	opt := ""
 	if sc.Shared {
 		opt = "shared"
+	} else if len(sc.Handles) == len(sc.Clients) {
+		var hs []string
+		for _, h := range sc.Handles {
+			hs = append(hs, fmt.Sprint(h))
+		}
+		opt = "handles=" + strings.Join(hs, ".")
 	}
 	return strings.Join(pre, ",") + "|" + strings.Join(cl, "/") + "|" + strings.Join(s, ",") + "|" + opt + "|" + strings.Join(sc.MustHit, ",")
 }
@@ -67,6 +79,12 @@ func parseC11(s string) *c11Scenario {
 	sc := &c11Scenario{Pre: map[string][]byte{}}
 	if len(parts) == 5 {
 		sc.Shared = parts[3] == "shared"
+		if strings.HasPrefix(parts[3], "handles=") {
+			for _, x := range strings.Split(strings.TrimPrefix(parts[3], "handles="), ".") {
+				n, _ := strconv.Atoi(x)
+				sc.Handles = append(sc.Handles, n)
+			}
+		}
 		if parts[4] != "" {
 			sc.MustHit = strings.Split(parts[4], ",")
 		}
@@ -127,7 +145,17 @@ func genC11(r *common.RNG) *c11Scenario {
 			id := r.Intn(nid)
 			switch r.Intn(5) {
 			case 0, 1:
-				calls = append(calls, c11Call{Op: "put", ID: id, Data: c11Contents[common.Pick(r, perID[id])]})
+				d := c11Contents[common.Pick(r, perID[id])]
+				switch r.Intn(8) {
+				case 0, 1:
+					// the source is not at its start when Put gets it
+					calls = append(calls, c11Call{Op: "putat", ID: id, Data: d, R: r.Intn(len(d) + 1)})
+				case 2:
+					// the reader of this client's previous Put, given to Put again
+					calls = append(calls, c11Call{Op: "putagain", ID: id, Data: d})
+				default:
+					calls = append(calls, c11Call{Op: "put", ID: id, Data: d})
+				}
 			case 2:
 				calls = append(calls, c11Call{Op: "getbytes", ID: id})
 			case 3:
@@ -137,6 +165,14 @@ func genC11(r *common.RNG) *c11Scenario {
 			}
 		}
 		sc.Clients = append(sc.Clients, calls)
+	}
+	switch r.Intn(4) {
+	case 0:
+		sc.Shared = true // goroutines of one program on one handle
+	case 1:
+		for range sc.Clients { // two handles on the directory, shared by some clients
+			sc.Handles = append(sc.Handles, r.Intn(2))
+		}
 	}
 	n := 20 + r.Intn(120)
 	burst := r.Chance(1, 3)
@@ -290,6 +326,71 @@ func systematicC11() []*c11Scenario {
 			}
 		}
 	}
+	// two writers of DIFFERENT outputs that are not stored yet (both copy), as goroutines on ONE handle
+	// and as users with a handle each: one runs to completion at every operation boundary of the other
+	for _, pr := range [][2][]byte{{[]byte("ab"), []byte("xy")}, {d, d2}, {[]byte("a"), []byte("b")}} {
+		for _, shared := range []bool{true, false} {
+			for k := 0; k <= 12; k++ {
+				for _, first := range []int{0, 1} {
+					sc := &c11Scenario{Pre: map[string][]byte{}, Shared: shared,
+						Clients: [][]c11Call{{{Op: "put", ID: 0, Data: pr[0]}}, {{Op: "put", ID: 1, Data: pr[1]}}}}
+					for i := 0; i < k; i++ {
+						sc.Schedule = append(sc.Schedule, first)
+					}
+					for i := 0; i < 40; i++ {
+						sc.Schedule = append(sc.Schedule, 1-first)
+					}
+					for i := 0; i < 40; i++ {
+						sc.Schedule = append(sc.Schedule, first)
+					}
+					out = append(out, sc)
+				}
+			}
+		}
+	}
+	// a Put whose source is NOT at its start (partly consumed, or at its end), for a new id and as a
+	// re-store of identical content, with a reader of that id at every operation boundary; and one
+	// reader object given to three Puts in a row
+	for _, dd := range [][]byte{d, []byte("ab"), d2} {
+		for _, off := range []int{1, len(dd) / 2, len(dd)} {
+			for _, pre := range []bool{false, true} {
+				for k := 0; k <= 12; k++ {
+					sc := &c11Scenario{Pre: map[string][]byte{},
+						Clients: [][]c11Call{{{Op: "putat", ID: 0, Data: dd, R: off}}, {{Op: "getbytes", ID: 0}, {Op: "getfile", ID: 0}}}}
+					if pre {
+						sc.Pre["a:"+idHex(0)] = entryBytes(0, dd, 1700000000000000777)
+						sc.Pre["d:"+outHex(dd)] = dd
+						sc.MustHit = []string{"1:0", "1:1"}
+						sc.Restore = true
+					}
+					for i := 0; i < k; i++ {
+						sc.Schedule = append(sc.Schedule, 0)
+					}
+					for i := 0; i < 60; i++ {
+						sc.Schedule = append(sc.Schedule, 1)
+					}
+					for i := 0; i < 60; i++ {
+						sc.Schedule = append(sc.Schedule, 0)
+					}
+					out = append(out, sc)
+				}
+			}
+		}
+		for k := 0; k <= 24; k += 2 {
+			sc := &c11Scenario{Pre: map[string][]byte{},
+				Clients: [][]c11Call{{{Op: "put", ID: 0, Data: dd}, {Op: "putagain", ID: 1, Data: dd}, {Op: "putagain", ID: 0, Data: dd}}, {{Op: "getbytes", ID: 1}, {Op: "getbytes", ID: 0}}}}
+			for i := 0; i < k; i++ {
+				sc.Schedule = append(sc.Schedule, 0)
+			}
+			for i := 0; i < 60; i++ {
+				sc.Schedule = append(sc.Schedule, 1)
+			}
+			for i := 0; i < 90; i++ {
+				sc.Schedule = append(sc.Schedule, 0)
+			}
+			out = append(out, sc)
+		}
+	}
 	for _, pre := range []int{0, 1, 2} {
 		for _, a := range callsA {
 			for _, b := range callsB {
@@ -352,7 +453,7 @@ func (rn *c11Runner) runScenario(sc *c11Scenario) (corr, impl, oname string, tag
 		}
 		clients = append(clients, ops)
 	}
-	resp, err := rn.w.call(map[string]any{"cmd": "conc", "clients": clients, "schedule": sc.Schedule, "shared": sc.Shared})
+	resp, err := rn.w.call(map[string]any{"cmd": "conc", "clients": clients, "schedule": sc.Schedule, "shared": sc.Shared, "handles": sc.Handles})
 	if err != nil {
 		return "worker: " + err.Error(), "", "", nil
 	}
@@ -383,7 +484,7 @@ func (rn *c11Runner) runScenario(sc *c11Scenario) (corr, impl, oname string, tag
 	}
 	for _, c := range sc.Clients {
 		for _, o := range c {
-			if o.Op == "put" || o.Op == "putdiff" {
+			if o.isPut() || o.Op == "putdiff" {
 				candidates = append(candidates, o.Data)
 			}
 		}
@@ -410,7 +511,7 @@ func (rn *c11Runner) runScenario(sc *c11Scenario) (corr, impl, oname string, tag
 	putIDs := map[int]bool{}
 	for _, c := range sc.Clients {
 		for _, o := range c {
-			if o.Op == "put" {
+			if o.isPut() {
 				addStored(o.ID, o.Data)
 				putIDs[o.ID] = true
 			}
@@ -438,8 +539,11 @@ func (rn *c11Runner) runScenario(sc *c11Scenario) (corr, impl, oname string, tag
 				r = strings.TrimSuffix(r, " BADFILE")
 				resp.Results[ci][oi] = r
 			}
-			if o.Op == "put" && r == "PUTFAILED" && impl == "" {
-				impl, oname = fmt.Sprintf("client %d: Put(id%d) failed although nothing was injected", ci, o.ID), "put-failed"
+			if o.isPut() && r == "PUTFAILED" && impl == "" {
+				impl, oname = fmt.Sprintf("client %d: Put(id%d) (%s) failed although nothing was injected", ci, o.ID, o.Op), "put-failed"
+			}
+			if o.isPut() && strings.HasPrefix(r, "PUTOK ") && r != fmt.Sprintf("PUTOK %s %d", outHex(o.Data), len(o.Data)) && impl == "" {
+				impl, oname = fmt.Sprintf("client %d: Put(id%d) of %d bytes (%s, source offset %d) returned %s: not the OutputID and size of the data it was given", ci, o.ID, len(o.Data), o.Op, o.R, r), "put-result"
 			}
 			if o.Op == "getbytes" || o.Op == "getfile" {
 				if r == "NF" {
@@ -492,7 +596,7 @@ func (rn *c11Runner) runScenario(sc *c11Scenario) (corr, impl, oname string, tag
 				start := resp.Spans[ci][oi][0]
 				for pc, c2 := range sc.Clients {
 					for po, o2 := range c2 {
-						if o2.Op == "put" && o2.ID == o.ID && po < len(resp.Spans[pc]) && po < len(resp.Results[pc]) &&
+						if o2.isPut() && o2.ID == o.ID && po < len(resp.Spans[pc]) && po < len(resp.Results[pc]) &&
 							strings.HasPrefix(resp.Results[pc][po], "PUTOK") && resp.Spans[pc][po][1] <= start && impl == "" {
 							impl, oname = fmt.Sprintf("client %d: %s(id%d) missed (%s) although client %d's Put of that id (the only content ever stored for it) had already returned successfully", ci, o.Op, o.ID, resp.Results[ci][oi], pc), "spurious-miss"
 						}
@@ -577,7 +681,8 @@ func (rn *c11Runner) runScenario(sc *c11Scenario) (corr, impl, oname string, tag
 				for _, x := range ch {
 					sb.WriteString(" " + rn.m.ref(x))
 				}
-			} else if o.Op == "put" {
+			} else if o.isPut() {
+				// the model's Put rewinds its source first: where the source was does not matter
 				if hr := rn.m.hashReq(o.Data); hr != "" {
 					reqs = append(reqs, hr)
 				}
@@ -611,11 +716,12 @@ func (rn *c11Runner) runScenario(sc *c11Scenario) (corr, impl, oname string, tag
 	}
 	for _, c := range sc.Clients {
 		for _, o := range c {
-			if o.Op == "put" {
+			if o.isPut() {
 				keysSet["d:"+outHex(o.Data)] = true
 			}
 		}
 	}
+	keysSet["d:"+outHex(nil)] = true // the empty output: what a Put that does not rewind a source at its end would store
 	var keys []string
 	for k := range keysSet {
 		keys = append(keys, k)
@@ -697,10 +803,20 @@ func (rn *c11Runner) one(sc *c11Scenario, src string) {
 	nput := 0
 	for _, c := range sc.Clients {
 		for _, o := range c {
-			if o.Op == "put" {
+			if o.isPut() {
 				nput++
 			}
+			if o.Op == "putat" || o.Op == "putagain" {
+				res.Count("source:" + o.Op)
+			}
 		}
+	}
+	if sc.Shared {
+		res.Count("handles:one-shared")
+	} else if len(sc.Handles) > 0 {
+		res.Count("handles:some-shared")
+	} else {
+		res.Count("handles:one-each")
 	}
 	res.Count(fmt.Sprintf("clients:%d", len(sc.Clients)))
 	res.Case(sc.String(), nput >= 2)
